@@ -50,7 +50,7 @@ PROPS = {
     "C02": {
         "level": "proof",
         "quick": PERM_LIB + LEAF + names("aead", ["enc"], ["grid"]),
-        "thorough": PERM_LIB + LEAF + names("aead", ["enc"], ["grid", "u", "ui"]),
+        "thorough": PERM_LIB + LEAF + names("aead", ["enc"], ["grid", "u"]),
         "pre": [native.katcheck, native.aead_compilers], "campaign": native.aead_campaign,
         "text": "L0: the C permutations equal the bit-serial NLFSR of the specification for the round counts the AEAD uses (5, 8/9/10), all states and keys; L1: encrypt == SpecEnc (frame bits 1/3/5/7, 640-step and long permutations, partial-block length injection, two-squeeze tag) for every permutation function.",
         "note": "spec <-> TinyJAMBU v2 paper correspondence is by reading plus native KAT replay of the reference model; message loop unbounded only in the thorough tier (quick: bounded grid). " + MODULAR + ". Compilers, optimisation levels, shared vs static objects not covered.",
@@ -60,7 +60,7 @@ PROPS = {
     "C03": {
         "level": "proof",
         "quick": UTIL + LEAF + names("aead", ["dec"], ["grid", "short"]) + ["spec.aead.rt2"],
-        "thorough": UTIL + LEAF + names("aead", ["dec"], ["grid", "short", "u", "ui"]) + ["spec.aead.rt2"],
+        "thorough": UTIL + LEAF + names("aead", ["dec"], ["grid", "short", "u"]) + ["spec.aead.rt2"],
         "pre": [native.katcheck], "campaign": native.aead_campaign,
         "text": "check_tag contract (0 iff all 8 bytes equal, else -1; complete over all 2^128 tag pairs; unbounded plaintext length) + decrypt == SpecDec with 'check_tag receives the specification's tag and the received tag, all 8 bytes' + lemma RT2 (the recomputed tag is the tag encryption yields for the recovered plaintext) + clen < 8: negative result, nothing written, no cipher call.",
         "note": "the 2^-64 forgery bound is a cryptographic property of the NLFSR and is not decided. (accum - 1) >> 8 on a negative int is implementation-defined (arithmetic shift assumed, as gcc/clang). Decrypt message loop unbounded only in the thorough tier. " + MODULAR,
@@ -70,7 +70,7 @@ PROPS = {
     "C04": {
         "level": "proof",
         "quick": UTIL + names("aead", ["dec"], ["grid"]) + names("siv", ["dec"], ["grid"]),
-        "thorough": UTIL + names("aead", ["dec"], ["grid", "u", "ui"]) + names("siv", ["dec"], ["grid", "u", "ui"]),
+        "thorough": UTIL + names("aead", ["dec"], ["grid", "ui"]) + names("siv", ["dec"], ["grid", "ui"]),
         "campaign": native.aead_campaign,
         "text": "check_tag postcondition at an arbitrary ghost index: reject => byte is 0, accept => byte unchanged, for every plaintext length up to 2^40 (loop contract); the 6 decrypt functions pass the start of the plaintext buffer and the full length (asserted by the check_tag contract stub) and on reject every plaintext byte is 0.",
         "note": "the decrypt-side argument-passing obligation is checked on the bounded grid in the quick tier and unboundedly (loop contracts) in the thorough tier. " + MODULAR,
@@ -100,7 +100,7 @@ PROPS = {
     "C09": {
         "level": "proof",
         "quick": LEAF + names("siv", ["enc"], ["grid"]),
-        "thorough": LEAF + names("siv", ["enc"], ["grid", "u", "ui"]),
+        "thorough": LEAF + names("siv", ["enc"], ["grid", "u"]),
         "pre": [native.katcheck], "campaign": native.aead_campaign,
         "text": "construction part: siv_encrypt output == documented two-pass construction for every input: tag = TinyJAMBU MAC over (nonce, AD, plaintext) with nonce domain 0x90; body = plaintext XOR keystream whose permutation inputs are functions of (key, npub[0..3], tag) only (the plaintext enters only the output XOR in pass 2).",
         "note": "NOT decided: 'two messages differing in any bit get different IVs and unrelated bodies beyond chance' is a probabilistic statement about the MAC (PRF assumption); it follows from the construction and is recorded as an assumption. Determinism: no other inputs (see C19). " + MODULAR,
@@ -257,10 +257,10 @@ C06_JOBS = (UTIL + LEAF + names("aead", ["enc", "dec"], ["grid"]) + names("siv",
 PROPS["C06"] = {
     "level": "proof",
     "quick": C06_JOBS,
-    "thorough": C06_JOBS + names("aead", ["enc", "dec"], ["u", "ui"]) + names("siv", ["enc", "dec"], ["u", "ui"]) + ["hash.update.u"]
+    "thorough": C06_JOBS + ["hash.update.u", "aead128.enc.ui", "siv128.enc.ui"]
                 + [n for n in JOBS if n.startswith(("hmac.rfc2104.grid.", "hkdf.step.grid.", "hkdf.extract.grid.", "pbkdf2.grid.", "prng.ops.fn.", "prng.generate.fn."))],
     "campaign": _all_campaigns,
-    "text": "for every API function reached by the harnesses: CBMC's pointer-dereference, array-bounds, signed-overflow, undefined-shift and division checks on the real code, with every caller buffer an object of EXACTLY the declared length (any access outside the declared range is an object-bounds failure), symbolic lengths closed by loop contracts (absorb, check_tag, clean, hkdf_expand, pbkdf2, prng_generate, trng retry; message loops in the thorough tier) or concrete on the grids, loop and function frames (assigns clauses), 'inputs unchanged' at ghost indices, NULL with zero length (AEAD/SIV AD and message, hash_update), exact aliasing c == m (in-place variants), guard bytes behind outputs.",
+    "text": "for every API function reached by the harnesses: CBMC's pointer-dereference, array-bounds, signed-overflow, undefined-shift and division checks on the real code, with every caller buffer an object of EXACTLY the declared length (any access outside the declared range is an object-bounds failure), symbolic lengths closed by loop contracts (absorb, check_tag, clean, hkdf_expand, pbkdf2, prng_generate, trng retry; message loops in the thorough tier) or concrete on the grids (the unbounded message-loop proofs of the 12 AEAD/SIV functions, which carry the same safety obligations for every length, run in the thorough tiers of C01/C03/C04/C08), loop and function frames (assigns clauses), 'inputs unchanged' at ghost indices, NULL with zero length (AEAD/SIV AD and message, hash_update), exact aliasing c == m (in-place variants), guard bytes behind outputs.",
     "note": "outputs never depend on uninitialised memory: CBMC gives uninitialised memory nondeterministic values, so every functional postcondition (C01-C04, C08-C15) proves independence for that output; there is no separate definedness check. memcpy(dst, NULL, 0) (hash_update(st, NULL, 0) with posn > 0, NULL salts) accesses nothing; ISO C before C2y calls it undefined - recorded as an observation, not a violation. Alignment: CBMC's memory model is alignment-insensitive; all buffer accesses in the code are byte-wide; code that inspects pointer bits is covered by the alignment-offset grids. Optimised production objects and sanitizer builds are not covered.",
     "technique": "CBMC safety obligations + frame (assigns) obligations on the real code under contracts, exact-size objects, loop contracts",
     "trusted": TRUSTED,
